@@ -132,8 +132,43 @@ def corr_C01(ctx):
 def corr_C04(ctx):
     return _lines(ctx, CH11, ctx.scale(4, 40))
 
+# --------------------------------------------------------------------------------------- iteration cursor
+CURSOR = ("IENAM", "IENAQ", "IENAD", "IENAN", "NPD", "ParserAlignedPacket", "ARINC429DataPacket",
+          "MILSTD1553DataPacket", "UARTDataPacket", "PCMDataPacket", "MPEGTS")
+
+def _cursor_lines(ctx):
+    """direct calls of `next()` / `iter(obj)` around loops, pack and unpack: the cursor `_index` is created by the first
+    `__iter__`, moved by every loop over the object (the one inside some `pack`s too) and never reset by `unpack`"""
+    rng, lines = ctx.rng, []
+    for _, cg in _cgs(CURSOR):
+        cls = cg.cls
+        samples = _samples(ctx, cg, ctx.scale(3, 30))
+        opts0 = cg.opts[0]
+        lines.append(gen.H(cls, ["call next"], opts0))                       # never iterated: AttributeError
+        lines.append(gen.H(cls, ["iter", "call next"], opts0))               # after a loop: StopIteration
+        lines.append(gen.H(cls, ["call iter", "call next"], opts0))          # rewound, empty: StopIteration
+        for (opts, f, sets, b) in samples:
+            n = _count(cls, f)
+            steps = ["call next"] * rng.randrange(0, n + 1)
+            lines.append(gen.H(cls, sets + ["call iter"] + ["call next"] * (n + 1), opts))       # every element, then stop
+            lines.append(gen.H(cls, sets + ["call iter"] + steps + ["obs", "len"] if gen.CONTAINER[cls][0] else sets + ["call iter"] + steps + ["obs"], opts))
+            if cg.can_pack:
+                lines.append(gen.H(cls, sets + [cg.pack_op(), "call next"], opts))               # does pack loop over self?
+                lines.append(gen.H(cls, sets + ["call iter"] + steps + [cg.pack_op(), "call next", "call next"], opts))
+            if b is not None and cg.can_unpack:
+                other = rng.choice(samples)
+                if other[0] == opts and other[3] is not None:
+                    k = rng.randrange(0, _count(cls, other[1]) + 1)
+                    # a stale cursor survives unpack: what next() returns depends on the history, not on the bytes
+                    lines.append(gen.H(cls, [cg.unpack_op(other[3]), "call iter"] + ["call next"] * k +
+                                       [cg.unpack_op(b), "call next", "call next"], opts))
+                lines.append(gen.H(cls, [cg.unpack_op(b), "call next"], opts))                   # never iterated
+                lines.append(gen.H(cls, [cg.unpack_op(b), "iter", "call next"], opts))
+                lines.append(gen.H(cls, ["iter", cg.unpack_op(b), "call next", "call next"], opts))
+    return lines
+
 def corr_C13(ctx):
-    return _lines(ctx, FTI + CH11 + OTHER, ctx.scale(3, 40)) + _small_method_lines(ctx)
+    return _lines(ctx, FTI + CH11 + OTHER, ctx.scale(3, 40)) + _small_method_lines(ctx) + _cursor_lines(ctx)
 
 def corr_C08(ctx):
     return _malformed_lines(ctx, FTI + CH11 + OTHER, ctx.scale(12, 200))
